@@ -306,6 +306,11 @@ def subst_caps(new, caps, toks, src, others=()):
 
 
 
+def pat_shape(key):
+    """a closure-parameter key with the names removed: '( _ , len , p )' -> '(,,)'"""
+    return re.sub(r"[^(),]", "", key)
+
+
 def align_closures(fs, toks, cl, src):
     """expected ordinal -> (actual index, header, raw) for the annotated closures of a function.
     Positional first: if every annotated closure sits at its ordinal with the listed key, or with a key for which an
@@ -342,6 +347,11 @@ def align_closures(fs, toks, cl, src):
             elif actual[n - 1] in fs.closure_alts.get(n, {}):
                 h2, r2 = fs.closure_alts[n][actual[n - 1]]
                 ann[n] = (n - 1, h2, r2)
+            elif re.search(r"\bas\s+\(", hdr) and pat_shape(actual[n - 1]) == pat_shape(exp[n - 1]) and "(" in actual[n - 1]:
+                # a tuple pattern whose bindings were renamed (`(_, len, p)` -> `(_, _, p)`): the annotation speaks about the
+                # tuple's components, not about the names, so it still applies — with the closure's own pattern
+                h2 = re.sub(r"\bas\s+\(.*\)(\s*\)\s*->)", lambda m_: "as " + actual[n - 1] + m_.group(1), hdr, count=1)
+                ann[n] = (n - 1, h2, raw)
             else:
                 ok = False; break
         if ok:
@@ -404,6 +414,7 @@ class Edits:
             if s == e:
                 return any(a < s < b for a, b in spans)
             return any(a <= s and e <= b and (a, b) != (s, e) for a, b in spans)
+        self.dropped = [x[1] for x in eds if subsumed(x[1][0], x[1][1])]
         eds = [x for x in eds if not subsumed(x[1][0], x[1][1])]
         for _, (s, e, t, _p) in eds:
             if s < cur:
@@ -522,7 +533,8 @@ def process_fn(toks, it, fs: FnSpec, qual, ed: Edits, log, unit_in_trait_impl):
             spec = ("\n" + "\n".join(raw) + "\n") if raw else " "
             old = src[toks[c.bar1].pos:toks[c.bar2].end]
             if c.block:
-                ed.replace(toks[c.bar1].pos, toks[c.bar2].end, head + spec)
+                # up to the body's `{`: a return type written in the source is replaced by the annotated (named) one
+                ed.replace(toks[c.bar1].pos, toks[c.body_first].pos, head + spec)
                 if rc_lets:
                     ed.insert(toks[c.body_first].end, " " + " ".join(rc_lets), prio=-8)
             else:
@@ -1380,6 +1392,10 @@ def gen_file(ws, fsx: FileSpec, log):
         break
     ed.insert(pos, "\n" + imp, prio=0)
     out = ed.apply()
+    for (ds, de, dt, _dp) in getattr(ed, "dropped", []):
+        # ghost code (a hint, an invariant) that landed inside a region replaced by a rewrite is gone: say so
+        if ds == de and re.search(r"\bproof\s*\{|\blet\s+ghost\b|\bassert\b|\binvariant\b", dt):
+            log["lost_hints"].append({"fn": fsx.path, "anchor": "(inside a rewritten region) " + norm(dt)[:80]})
     # twins: operate on generated text using markers
     extra = []
     for (fnit, fs, qual, parent, in_trait) in wrapped_fns:
